@@ -866,7 +866,10 @@ def transpose_rules(ctx, R, b):
 # (substituted / dependent / default values: C05.state -- seed C06-10 changes the default value in evaluate only)
 # ... and the used ids a kernel reports must not depend on the state (evaluate_samples stores their union over all samples, get() hands that union to every
 # extracted sample): the C01 kernel families, as under C05 (seed C06-11: Polynomial::evaluate leaves a monomial at its first zero factor)
-RELIES_ON = {'C01': ['C01.lookup', 'C01.fields', 'C01.every-term', 'C01.linear-none', 'C01.oneof', 'C01.used'], 'C04': ['C04.deps', 'C04.use'], 'C05': ['C05.state']}
+RELIES_ON = {'C01': ['C01.lookup', 'C01.fields', 'C01.every-term', 'C01.linear-none', 'C01.oneof', 'C01.used'], 'C04': ['C04.deps', 'C04.use'], 'C05': ['C05.state'],
+             # a partially evaluated instance: fixed values are recorded and the dependency functions are partially evaluated as well, otherwise
+             # evaluate (which inserts the fixed values first) and evaluate_samples (which does not) part ways (seeds C05-15, C06-15 / C04-12)
+             'C03': ['C03.instance/record', 'C03.instance/cover/decision_variable_dependency', 'C03.instance/apply/decision_variable_dependency']}
 
 
 def check(ctx):
